@@ -59,7 +59,9 @@ RULE = (
     "affinity x score alphabet. project: every multiset (quick) / sequence (thorough) of task clips x annotated clips "
     "over 3 clips. clip: alphabet squared. score: 4 classes x alphabet. defaults: every (model class, container-valued default "
     "field) of soundevent.data found by reflection, history 'build with defaults, fill the container in place, build again' - the "
-    "second object must start empty (else it holds objects never offered to its validators). Non-trivial: clip_evaluation cases with at "
+    "second object must start empty (else it holds objects never offered to its validators). Environment axis: the project, clip, score "
+    "and match spaces once more in a child interpreter started with -O (case key env='python -O'). clip cases also offer the two times as "
+    "decimal text, Decimal, float mixed with text, numpy float32 and quoted JSON numbers. Non-trivial: clip_evaluation cases with at "
     "least one match and one sound event in the clip; match/score/clip cases that touch a boundary value (anything "
     "but 0.5 / none / start == end); project cases with both lists non-empty. distinct = distinct case descriptor."
 )
@@ -882,7 +884,35 @@ def blocks(tier):
     out.append({"space": "clip", "tier": tier})
     out += [{"space": "score", "tier": tier, "cls": cname} for cname in SCORE_CLASSES]
     out.append({"space": "defaults", "tier": tier})
+    # environment axis: the small spaces once more in a child interpreter started with -O (assert statements compiled away)
+    out += [{"space": "optimized", "tier": tier, "of": sp} for sp in ("project", "clip", "score", "match")]
     return out
+
+
+ENV_O = "python -O"
+
+
+def child_case(case):
+    return [run_case(case)]
+
+
+def optimized_cases(tier, of):
+    c = CFG[tier]
+    if of == "project":
+        lists = project_lists(tier)
+        for tasks in lists:
+            for annotated in lists:
+                yield {"space": "project", "tasks": tasks, "annotated": annotated}
+    elif of == "clip":
+        for s in c["clip_values"]:
+            for e in c["clip_values"]:
+                yield {"space": "clip", "start": s, "end": e}
+    elif of == "score":
+        for cname in SCORE_CLASSES:
+            for vn in c["values"] + (["none"] if OPTIONAL_SCORE[cname] else []):
+                yield {"space": "score", "cls": cname, "value": vn}
+    else:
+        yield from itertools.islice(match_cases(tier), 0, None, 1 if tier == "quick" else 4)
 
 
 def run_block(block, rec):
@@ -906,6 +936,10 @@ def run_block(block, rec):
         for tasks in lists[lo:hi]:
             for annotated in lists:
                 rec.add(run_case({"space": sp, "tasks": tasks, "annotated": annotated}))
+    elif sp == "optimized":
+        from mc import child
+        for o in child.run_in_child("c04", ENV_O, list(optimized_cases(tier, block["of"]))):
+            rec.add(o)
     elif sp == "defaults":
         for cname, fname in default_sites():
             rec.add(run_case({"space": sp, "cls": cname, "field": fname}))
@@ -979,4 +1013,7 @@ def run_case(case):
 
 
 def replay_case(case):
+    if case.get("env"):
+        from mc import child
+        return child.run_in_child("c04", case["env"], [{k: v for k, v in case.items() if k != "env"}])[0]
     return run_case(case)
